@@ -405,12 +405,12 @@ func randShape(g *vlib.Rng, c *Case) {
 	for i := 0; i < nOuts; i++ {
 		c.Outs = append(c.Outs, Out{Value: uint64(g.Intn(1e6)), Script: HexB(randScript(g, 1+g.Intn(3), 0))})
 	}
-	c.Version = uint32(g.Pick(1, 2, 2, 3))
+	c.Version = pickVersion(g) // whole 32-bit range (ctxwords.go): the digests commit to it, CSV reads it
 	if g.Intn(3) == 0 {
-		c.LockTime = uint32(g.Pick(0, 100, 500000000, 0xffffffff))
+		c.LockTime = pickLockTime(g)
 	}
 	if g.Intn(3) == 0 {
-		c.Ins[idx].Sequence = uint32(g.Pick(0, 5, 0x00400005, 0xfffffffe, 0xffffffff))
+		c.Ins[idx].Sequence = pickSequence(g)
 	}
 }
 
@@ -794,7 +794,7 @@ func mutate(g *vlib.Rng, c *Case) {
 				c.Outs = append(c.Outs, Out{Value: uint64(g.Intn(1000)), Script: HexB{0x51}})
 			}
 		default:
-			c.Version ^= uint32(1 << uint(g.Intn(3)))
+			c.Version ^= uint32(1 << uint(g.Intn(32)))
 		}
 	case 0:
 		in.SigScript = flip(in.SigScript)
@@ -1121,8 +1121,8 @@ func generated() {
 	for round := 0; round < rounds; round++ {
 		for op := 0; op < 256; op++ {
 			d := depths[g.Intn(len(depths))]
-			e := &EvalCase{Kind: fmt.Sprintf("sweep:op-%02x", op), Flags: randFlags(g), SV: g.Pick(0, 0, 1, 3), Version: uint32(1 + g.Intn(2)),
-				LockTime: uint32(g.Pick(0, 100, 500000000, 500000100)), Sequence: uint32(g.Pick(0, 5, 0x00400005, 0x80000000, 0xfffffffe, 0xffffffff)),
+			e := &EvalCase{Kind: fmt.Sprintf("sweep:op-%02x", op), Flags: randFlags(g), SV: g.Pick(0, 0, 1, 3), Version: pickVersion(g),
+				LockTime: pickLockTime(g), Sequence: pickSequence(g),
 				Weight: int64(g.Pick(0, 49, 50, 1000))}
 			s := []byte{byte(op)}
 			if op <= 0x4e {
@@ -1153,8 +1153,8 @@ func generated() {
 	}
 	// ---- grammar-generated scripts through evalScript
 	for i := 0; i < r.N(4000, 200000); i++ {
-		e := &EvalCase{Kind: "grammar-eval", Flags: randFlags(g), SV: g.Pick(0, 0, 1, 3), Version: uint32(1 + g.Intn(2)),
-			LockTime: uint32(g.Pick(0, 100, 500000000)), Sequence: uint32(g.Pick(0, 5, 0x00400005, 0xfffffffe, 0xffffffff)), Weight: int64(g.Pick(0, 50, 120, 100000))}
+		e := &EvalCase{Kind: "grammar-eval", Flags: randFlags(g), SV: g.Pick(0, 0, 1, 3), Version: pickVersion(g),
+			LockTime: pickLockTime(g), Sequence: pickSequence(g), Weight: int64(g.Pick(0, 50, 120, 100000))}
 		e.Script = randScript(g, 1+g.Intn(12), 0)
 		st := make([][]byte, g.Intn(7))
 		for j := range st {
@@ -1204,6 +1204,8 @@ func generated() {
 	shapeHook, signWithTree = nil, false
 	// ---- tapscript sigop budget at and around its boundary
 	budgetStream(r.Rng.Fork(), r.N(160, 6000))
+	// ---- CLTV / CSV against version / lock time / sequence words of the whole 32-bit range (ctxwords.go)
+	lockStream(r.Rng.Fork(), r.N(1200, 40000))
 	_ = bytes.Equal
 }
 
